@@ -105,7 +105,7 @@ def bridge(hdir, model, gen, gen_order, changed, added):
     res = {}
     if not changed and not added:
         return res
-    lines = ['import TFV.Gen', 'set_option linter.unusedVariables false', 'set_option maxRecDepth 100000', 'set_option maxHeartbeats 400000', '']
+    lines = ['import TFV.Gen', 'import TFV.Spec.Comm', 'set_option linter.unusedSimpArgs false', 'set_option linter.unusedVariables false', 'set_option maxRecDepth 100000', 'set_option maxHeartbeats 400000', '']
     names = set(changed)
     order = [n for n in gen_order if n in names or n in added]
     for n in order:
@@ -122,9 +122,9 @@ def bridge(hdir, model, gen, gen_order, changed, added):
         if d.get('pf'):
             lines.append(rename_for_delta(d['pf'], names))
         if gen[n]['text'] != model[n]['text']:
-            lines.append('theorem bridge.%s : @%s.NEW = @%s := by\n  first | rfl | (funext; rfl) | (funext; simp only [%s.NEW, %s]) | (funext; unfold %s.NEW %s; simp)' % (n, n, n, n, n, n, n))
+            lines.append('theorem bridge_%s : @%s.NEW = @%s := by\n  first | rfl | (funext; rfl) | (funext; simp only [%s.NEW, %s, arithmetic.fma, RAdd.add, RMul.mul, F64.add_comm, F64.mul_comm, F64.fma_comm]) | (funext; unfold %s.NEW %s; simp [F64.add_comm, F64.mul_comm, F64.fma_comm])' % (n.replace('.', '_'), n, n, n, n, n, n))
         if d.get('pf') and model[n].get('pf') and d['pf'] != model[n]['pf']:
-            lines.append('theorem bridge_pf.%s : @%s.NEW.pf = @%s.pf := by\n  first | rfl | (funext; rfl) | (funext; simp only [%s.NEW.pf, %s.pf])' % (n, n, n, n, n))
+            lines.append('theorem bridgepf_%s : @%s.NEW.pf = @%s.pf := by\n  first | rfl | (funext; rfl) | (funext; simp only [%s.NEW.pf, %s.pf])' % (n.replace('.', '_'), n, n, n, n))
         elif bool(d.get('pf')) != bool(model[n].get('pf')):
             res[n] = 'BROKEN (panic-freedom predicate appeared or disappeared)'
         lines.append('')
@@ -145,7 +145,7 @@ def bridge(hdir, model, gen, gen_order, changed, added):
         k = ln
         hit = None
         while k >= 0:
-            mm = re.match(r'theorem bridge(?:_pf)?\.(\S+) :', src[k]) or re.match(r'def (\S+?)\.NEW(?:\.pf)? ', src[k])
+            mm = re.match(r'theorem bridge(?:pf)?_\S+ : @(\S+?)\.NEW(?:\.pf)? =', src[k]) or re.match(r'def (\S+?)\.NEW(?:\.pf)? ', src[k])
             if mm:
                 hit = mm.group(1)
                 break
